@@ -384,6 +384,8 @@ def mkNode (node : Option Sect) (ldf : Option (List (HeatRow Rat))) (c : CompIn)
         | .error e => .error e
         | .ok conf' => .ok { name := c.name, attrs := withLabel c.name conf' }
 
+/-- one cluster: `pydot.Subgraph(_q("cluster_" + g), label=g, **cconf)` and its member nodes; the identifier is
+    quoted like the node identifiers (fix c7c5e36), so Graphviz reads it back as `cluster_<g>` (`renderedId`) -/
 def mkCluster (bd : Config) (ldf : Option (List (HeatRow Rat))) (gm : String × List CompIn) :
     Except Err DCluster :=
   match bd.cluster with
@@ -463,8 +465,8 @@ def DotGraph.allNodes (d : DotGraph) : List DNode := d.clusters.flatMap (·.node
 
 /-! ### node identifiers: `_q(name)` and how Graphviz reads it back
 
-`_diag` hands pydot the identifier `_q(name) = '"' + name.replace('"', '\\"') + '"'` for every node and edge
-endpoint.  pydot passes a string that starts with `"` through untouched, and Graphviz' lexer reads a quoted
+`_diag` hands pydot the identifier `_q(name) = '"' + name.replace('"', '\\"') + '"'` for every node, edge
+endpoint and cluster (`_q("cluster_" + g)`).  pydot passes a string that starts with `"` through untouched, and Graphviz' lexer reads a quoted
 string as: `\"` → `"`, a pair `\\` stays a pair, any other character (a lone backslash, a newline, `:`, …) is
 itself, the first un-escaped `"` ends it.  `renderedId` is that reading; it is the component's name again unless
 the name has an odd run of backslashes directly before a `"` or at its end (`a\`, `b\"c`): DOT has no way to write
